@@ -13,6 +13,7 @@
 package http3
 
 import (
+	"bytes"
 	"context"
 	"crypto/tls"
 	"errors"
@@ -854,7 +855,11 @@ func (r *hnRun) excused(i int, side string) (bool, string) {
 		// one on the fault-free network (see the clean configuration): both
 		// endpoints were alive, an operation was pending, and the scripts never
 		// pause that long.
-		if at := r.sim.Elapsed(); st == "idle_timeout" && at >= r.p.faults.HealAt+r.p.cli.idle {
+		// Only with the 2-minute idle timeout: a PTO that loss before the heal has
+		// backed off beyond a 15 s or 30 s idle timeout lets the peer idle out
+		// before the next probe, which is what RFC 9002 and 9000 10.1 allow; the
+		// faults end after at most 5 s, so the back-off cannot come near 2 minutes.
+		if at := r.sim.Elapsed(); st == "idle_timeout" && r.p.cli.idle >= 2*time.Minute && at >= r.p.faults.HealAt+r.p.cli.idle {
 			r.mu.Lock()
 			r.idleDeaths = append(r.idleDeaths, fmt.Sprintf("request %d (%s) at %v", i, side, at))
 			r.mu.Unlock()
@@ -1449,7 +1454,22 @@ func hnRunC34(t *testing.T, rt *rapid.T) {
 	deadlock := vs.Bubble(t, func() {
 		sim := vs.NewSim(tape, tr)
 		sim.MaxSteps = vs.Thorough(14000, 60000)
-		sim.Horizon = p.faults.HealAt + 120*time.Second
+		// Liveness budget after the heal: 2 minutes plus three times the round
+		// trips that the smallest flow-control window on each path forces on the
+		// generated volume (a 4 KiB window at 200 ms latency moves ~10 KB/s: slow
+		// is not stuck).
+		liveBudget := 120 * time.Second
+		{
+			upWin := min(hnEff(p.srv.streamRead), hnEff(p.srv.connRead), hnEff(p.cli.streamWrite))
+			downWin := min(hnEff(p.cli.streamRead), hnEff(p.cli.connRead), hnEff(p.srv.streamWrite))
+			rounds := int64(0)
+			for _, q := range p.reqs {
+				rounds += int64(q.body)/int64(upWin) + int64(q.rbody)/int64(downWin) + 6
+			}
+			rtt := 2*(p.faults.BaseLatency+p.faults.Jitter) + 60*time.Millisecond
+			liveBudget += 3 * time.Duration(rounds) * rtt
+		}
+		sim.Horizon = p.faults.HealAt + liveBudget
 		ctx, cancel := context.WithCancel(context.Background())
 		r := &hnRun{p: p, sim: sim, tr: tr, ctx: ctx}
 		for range p.reqs {
@@ -1555,7 +1575,7 @@ func hnRunC34(t *testing.T, rt *rapid.T) {
 					logs = append(logs, rs.log...)
 				}
 				r.mu.Unlock()
-				viol = vs.Violf("C34", "liveness", "net:stuck_after_heal:"+hnStuckSig(pending), "%v of simulated time after the network healed (at %v) these tasks have not finished (connection %s, %d datagrams in flight): %v\n%s", 120*time.Second, p.faults.HealAt, state, pnet.InFlight(), pending, strings.Join(logs, "\n"))
+				viol = vs.Violf("C34", "liveness", "net:stuck_after_heal:"+hnStuckSig(pending), "%v of simulated time after the network healed (at %v) these tasks have not finished (connection %s, %d datagrams in flight): %v\n%s", liveBudget, p.faults.HealAt, state, pnet.InFlight(), pending, strings.Join(logs, "\n"))
 			}
 		}
 		r.mu.Lock()
@@ -2667,6 +2687,16 @@ func (r *hbRun) consume(tk *vs.Task, st *hbStream, name string, body io.Reader) 
 				what := "beyond the DATA payloads sent"
 				if off+j < len(exp) {
 					what = fmt.Sprintf("the DATA payloads sent have %#x there", exp[off+j])
+				}
+				if os.Getenv("VERIF_H3NET_DEBUG") != "" {
+					var idx []int
+					for q := range exp {
+						if exp[q] == buf[j] && len(idx) < 12 {
+							idx = append(idx, q)
+						}
+					}
+					fmt.Printf("VERIF-DEBUG positions of %#x in exp: %v; wire positions offset: exp starts at wire index %d\n", buf[j], idx, bytes.Index(st.wire, exp[:8]))
+					fmt.Printf("VERIF-DEBUG consume mismatch off=%d j=%d n=%d k=%d got[:16]=%x exp[:16]=%x wire[:64]=%x idx-of-got-in-wire=%d\n", off, j, n, k, o.got[:min(len(o.got), 16)], exp[:min(len(exp), 16)], st.wire[:min(len(st.wire), 64)], bytes.Index(st.wire, o.got[max(0, len(o.got)-4):]))
 				}
 				r.setViol(vs.Violf("C35", "body_bytes_outside_data", name+":body_not_data", "%s: body byte %d handed to the reader is %#x but %s (%d DATA payload bytes sent; stream %s)", name, off+j, buf[j], what, len(exp), st.describe()))
 				r.mu.Lock()
